@@ -40,6 +40,7 @@ def handle_results(prop, results, runner, scratch, crate_dir, harness_file_of, o
                    replay_release=True):
     known, _fixed = load_known_findings()
     known_keys = {k["key"]: k for k in known if k["property"] == prop}
+    replayed_keys = {}
     for r in results:
         h, p = r["harness"], r["parsed"]
         rec = {
@@ -74,6 +75,17 @@ def handle_results(prop, results, runner, scratch, crate_dir, harness_file_of, o
         key = finding_key(h, p)
         descs = "; ".join(sorted(set(c["description"] for c in p["failed_checks"])))[:400]
         ub_only = all(UB_PAT.search(c["description"]) for c in p["failed_checks"])
+        if key in replayed_keys:
+            # same failing assertion in the same harness family: already replayed once, do not pay for it again
+            first = replayed_keys[key]
+            rec["counterexample"] = {"key": key, "failed": descs, "same_finding_as": first["harness"]}
+            if first["kind"] == "known":
+                continue
+            if first["kind"] == "violation":
+                outcome.violations.append({"key": key, "what": descs, "replay": first["replay"], "harness": h.name})
+            else:
+                outcome.inconclusive.append("%s: same unreproduced counterexample as %s" % (h.name, first["harness"]))
+            continue
         test_text, cex_run = runner.counterexample(h)
         replay_info = {"property": prop, "harness": h.name, "bounds": h.bounds, "key": key,
                        "failed_checks": p["failed_checks"][:10], "playback_test": test_text}
@@ -93,10 +105,14 @@ def handle_results(prop, results, runner, scratch, crate_dir, harness_file_of, o
         with open(rp, "w") as f:
             json.dump(replay_info, f, indent=1)
         rec["counterexample"] = {"key": key, "failed": descs, "reproduced_natively": reproduced, "ub_class": ub_only}
+        replayed_keys[key] = {"harness": h.name, "replay": rp, "kind": "inconclusive"}
         if key in known_keys:
+            replayed_keys[key]["kind"] = "known"
             outcome.known.append({"key": key, "what": known_keys[key]["what"], "reproduced": reproduced})
             log("KNOWN-FINDING: property=%s %s [%s]" % (prop, known_keys[key]["what"], key))
             continue
+        if reproduced or ub_only:
+            replayed_keys[key]["kind"] = "violation"
         if reproduced:
             outcome.violations.append({"key": key, "what": descs, "replay": rp})
             log("VIOLATION property=%s replay=%s" % (prop, rp))
@@ -136,8 +152,8 @@ def finish(prop, tier, seed, outcome, t0, functions_encoded, assumptions, stubs,
     coverage.update(outcome.extra_coverage)
     write_evidence(prop, tier, seed, coverage, assumptions, time.time() - t0, len(outcome.violations))
     if outcome.violations:
-        for v in outcome.violations:
-            log("VIOLATION property=%s replay=%s" % (prop, v["replay"]))
+        for rp in sorted(set(v["replay"] for v in outcome.violations)):
+            log("VIOLATION property=%s replay=%s" % (prop, rp))
         return 1
     if outcome.inconclusive:
         for s in outcome.inconclusive:
